@@ -27,6 +27,10 @@ Verdict(o) ==
        ELSE IF o.kind = "bb" /\ o.obs.items # Len(o.items) THEN "itemCount"
        ELSE IF o.zl = 0 /\ (o.obs.min_u # U * e.min \/ o.obs.max_u # U * e.max) THEN "min-max"
        ELSE IF Abs(o.obs.mean_u * e.bases - U * e.sum) > e.bases THEN "mean"
+       \* option paths: --minmax prints the same extrema; --chroms lists every chromosome that has data
+       ELSE IF o.obs.mm = 2 THEN "minmax-option-failed"
+       ELSE IF o.obs.mm = 1 /\ o.zl = 0 /\ (o.obs.mm_min_u # U * e.min \/ o.obs.mm_max_u # U * e.max) THEN "minmax-option"
+       ELSE IF o.obs.chromlines # Len(ChromsOf(o.items)) THEN "chroms-option"
        ELSE "ok"
 Post == /\ \A i \in 1..Len(Obs) : LET v == Verdict(Obs[i]) IN (v = "ok" \/ PrintT(<<"BAD", i, v>>))
         /\ PrintT(<<"CHECKED", Len(Obs)>>)
